@@ -386,6 +386,8 @@ def paren_check(c, toks, n, ref):
 # ---------------------------------------------------------------------------------------------
 ALPHABET_FULL = list("aT015._()[]{},+-/*!=<>%~:| \n\t\r'\"`#é")
 ALPHABET_MULTI = list("a1._*/=<!'` ~")
+ALPHABET_KW = list("TtRrUuEeNnOo")  # spellings around the literals True / None
+ALPHABET_KW5 = list("FfAaLlSsEe")  # ... and False
 
 
 class SymStr:
@@ -869,6 +871,7 @@ def run(tier, seed):
         "H1 slices (restricted alphabets, longer sentences)": f"operator slice {SLICES['ops']} up to {NS_ops} tokens; call slice {SLICES['calls']} up to {NS_calls} tokens",
         "H2 scanner: string length, full alphabet": f"1..{L_full} over {len(ALPHABET_FULL)} characters {''.join(ALPHABET_FULL)!r}",
         "H2 scanner: string length, multi-character-token alphabet": f"1..{L_multi} over {''.join(ALPHABET_MULTI)!r}",
+        "H2 scanner: keyword-literal slice": "all strings of length 4 over 'TtRrUuEeNnOo'" + ("" if tier == "quick" else " and of length 5 over 'FfAaLlSsEe'"),
     }
     rep.outside = [
         "sentences longer than the stated bounds (the 'unbounded depth' part of the quantifier is not reachable by a bounded technique)",
@@ -892,13 +895,16 @@ def run(tier, seed):
         jobs.append({"kind": "h2", "l": l, "alphabet": ALPHABET_MULTI})
     for l in range(L_full, 0, -1):
         jobs.append({"kind": "h2", "l": l, "alphabet": ALPHABET_FULL})
+    jobs.append({"kind": "h2", "l": 4, "alphabet": ALPHABET_KW, "tag": "kw"})
+    if tier != "quick":
+        jobs.append({"kind": "h2", "l": 5, "alphabet": ALPHABET_KW5, "tag": "kw5"})
     results = core.run_tree(_work, jobs)
     per = {}
     for r in results:
         if r["error"]:
             rep.inconclusive.append(r["error"])
         rep.add_stats(r.get("stats", {}))
-        key = (r["job"]["kind"] + (":" + r["job"]["alphabet"] if r["job"].get("alphabet") and r["job"]["kind"] == "h1" and isinstance(r["job"].get("alphabet"), str) else ""), r["job"].get("n", r["job"].get("l")))
+        key = (r["job"]["kind"] + (":" + r["job"]["tag"] if r["job"].get("tag") else "") + (":" + r["job"]["alphabet"] if r["job"].get("alphabet") and r["job"]["kind"] == "h1" and isinstance(r["job"].get("alphabet"), str) else ""), r["job"].get("n", r["job"].get("l")))
         per[key] = per.get(key, 0) + r.get("stats", {}).get("paths", 0)
         for v in r["violations"]:
             rep.violations.append(v)
